@@ -265,7 +265,7 @@ pub fn run(ctx: &Ctx) {
 
     // proptest with speed grid and ties by construction
     let grid = [0.0f32, 1e-3, 1.0, 100.0, 1e9, f32::MAX];
-    let n: u32 = ctx.tier.pick(4_000, 200_000);
+    let n: u32 = ctx.tier.pick(30_000, 400_000);
     ctx.proptest(
         "pt-negotiation",
         n,
